@@ -374,3 +374,21 @@ Proof.
   - destruct (cz a) as [x|], (cz b) as [y|]; cbn in *; try discriminate; [|exact I].
     injection H3 as H3. rewrite <- (Qred_correct x), <- (Qred_correct y), H3. reflexivity.
 Qed.
+
+(* a pair inside the closed ranges enters neither loop: only the 180 -> -180 step applies *)
+Lemma norm_closed_range a b : -180 <= a -> a <= 180 -> -90 <= b -> b <= 90 ->
+  norm a b = Ok (canon180 a, b).
+Proof.
+  intros A1 A2 B1 B2. unfold norm.
+  rewrite pole_loop_fix by (cbn [snd]; apply lat_ok_intro; assumption).
+  rewrite wrap_loop_fix by (apply lon_ok_intro; assumption). reflexivity.
+Qed.
+
+Lemma canon180_cases a : a <= 180 ->
+  (a < 180 /\ canon180 a = a) \/ (a == 180 /\ canon180 a = -180).
+Proof.
+  intro H. unfold canon180. destruct (Qeq_bool a 180) eqn:E.
+  - right. apply Qeq_bool_eq in E. split; [exact E|reflexivity].
+  - left. apply Qeq_bool_neq in E. split; [|reflexivity].
+    destruct (Qlt_le_dec a 180) as [L|L]; [exact L|]. exfalso. apply E. lra.
+Qed.
